@@ -70,6 +70,18 @@ Definition spec (c : cfg) (tbl : list wfdata) (prog : loop) : option streams :=
   opt_bind (quantise_channel (c_chb c) (c_amp_b c) (c_off_b c) (c_tr_b c) vb) (fun b =>
   Some {| s_a := a; s_b := b; s_ma := map nonzero (evens vma); s_mb := map nonzero (evens vmb) |})))))).
 
+(* "every program whose piece lengths are compatible with the sample rate" (round 6): a piece whose exact length
+   duration * sample_rate lies within the tolerance of get_waveform_length (the float 1e-10, in samples) of its sample
+   count wf_n is SPECIFIED as its wf_n samples (`snap` replaces the length by the count); a piece outside the tolerance
+   keeps its length and has no specification (`wf_at` = None: a program that plays it must be rejected).  On tables
+   with exact integer lengths spec_tol is spec. *)
+Definition snap (wd : wfdata) : wfdata :=
+  if Qle_bool (Qabs (wf_len wd - inject_Z (wf_n wd))) tolerance
+  then {| wf_cls := wf_cls wd; wf_len := inject_Z (wf_n wd); wf_n := wf_n wd; wf_data := wf_data wd |}
+  else wd.
+
+Definition spec_tol (c : cfg) (tbl : list wfdata) (prog : loop) : option streams := spec c (map snap tbl) prog.
+
 (* device limits on what is emitted *)
 Definition segment_ok (bin : list Z) (n : Z) : bool :=
   (Z.of_nat (length bin) =? 2 * n) && (n >=? 192) && (n mod 16 =? 0).
